@@ -398,3 +398,91 @@ class C17Monitor(Monitor):
 
     def summary(self):
         return {"start": self.start_cstep, "tsteps": self.tsteps, "none_polls": self.none_polls}
+
+
+# ======================================================================================
+def stream_id(gen):
+    ss = gen.bit_generator._seed_seq
+    st = gen.bit_generator.state
+    return {"entropy": int(ss.entropy) if ss.entropy is not None else None,
+            "key": [int(x) for x in ss.spawn_key],
+            "state": hashlib.sha256(repr(st).encode()).hexdigest()[:20]}
+
+
+def global_rng_digest():
+    import random as pyrandom
+    h = hashlib.sha256()
+    st = np.random.get_state()
+    h.update(np.asarray(st[1]).tobytes())
+    h.update(repr(st[2:]).encode())
+    h.update(repr(pyrandom.getstate()).encode())
+    return h.hexdigest()[:20]
+
+
+class C07Monitor(Monitor):
+    """Stream ledger: every job's move/engine streams, recorded at the runner seam."""
+
+    def __init__(self):
+        self.reissue = False
+        self.njobs = 0
+        self.g0 = None
+
+    def on_attach(self, state, md_items):
+        self.seed = state.config["simulation"]["seed"]
+        self.restart_locked = len(state.locked0)
+        self.restarted = "restarted_from" in state.config["current"]
+
+    def pre_prep(self, md):
+        self.reissue = bool(self.sim.state.locked0)
+
+    def on_submit(self, jid, md, info):
+        sim, st = self.sim, self.sim.state
+        self.njobs += 1
+        sched = stream_id(st.rgen)
+        streams = []
+        objs = [st.rgen]
+        for e in md["picked"]:
+            pe = md["picked"][e]
+            mv, en = pe["ens"]["rgen"], pe.get("rgen-eng")
+            if en is None:
+                sim.violate("C07", "no_engine_stream", f"job {jid} ens {e} has no engine stream")
+                continue
+            for label, g in (("move", mv), ("engine", en)):
+                sid = stream_id(g)
+                sid["label"] = label
+                sid["ens"] = int(e)
+                streams.append(sid)
+                if any(g is o for o in objs):
+                    sim.violate("C07", "stream_object_shared",
+                                f"job {jid} ens {e}: {label} stream is the same object as another stream")
+                objs.append(g)
+                if sid["state"] == sched["state"] or sid["key"] == []:
+                    sim.violate("C07", "shares_scheduler_stream",
+                                f"job {jid} ens {e}: {label} stream {sid} vs scheduler {sched}")
+                if sid["entropy"] != self.seed:
+                    sim.violate("C07", "entropy_not_seed",
+                                f"job {jid} ens {e}: {label} stream entropy {sid['entropy']} but "
+                                f"simulation.seed is {self.seed}",
+                                site="after_restart" if self.restarted else "first_incarnation")
+                fresh = np.random.default_rng(np.random.SeedSequence(
+                    entropy=sid["entropy"], spawn_key=tuple(sid["key"])))
+                if fresh.bit_generator.state != g.bit_generator.state:
+                    sim.violate("C07", "stream_not_fresh",
+                                f"job {jid} ens {e}: {label} stream state differs from a fresh "
+                                f"generator of its seed sequence (already used or shared)")
+        sim.k.log(ev="streams", jid=jid, reissue=self.reissue, ens=info["ens"], paths=info["paths"],
+                  streams=streams, restarted=self.restarted, restart_locked=self.restart_locked,
+                  workers=int(st.workers))
+
+    def pre_job(self, jid, job):
+        self.g0 = global_rng_digest()
+
+    def post_job(self, jid, job, out):
+        g1 = global_rng_digest()
+        if g1 != self.g0:
+            self.sim.violate("C07", "global_rng_used",
+                             f"job {jid}: the process-global numpy/python RNG state changed during "
+                             f"the move", site=self.sim.scn.get("engine"))
+
+    def summary(self):
+        return {"jobs": self.njobs}
